@@ -241,12 +241,13 @@ struct Phases {
     random: u64,
     nested: u64,
     programs: u64,
+    flat: u64,
 }
 
 fn phases(tier: Tier) -> Phases {
     match tier {
-        Tier::Quick => Phases { exhaustive_len: 4, sampled: 200_000, random: 40_000, nested: 7 * 40, programs: 4_000 },
-        Tier::Thorough => Phases { exhaustive_len: 6, sampled: 0, random: 800_000, nested: 7 * 40, programs: 100_000 },
+        Tier::Quick => Phases { exhaustive_len: 4, sampled: 200_000, random: 40_000, nested: 7 * 40, programs: 4_000, flat: 400 },
+        Tier::Thorough => Phases { exhaustive_len: 6, sampled: 0, random: 800_000, nested: 7 * 40, programs: 100_000, flat: 8_000 },
     }
 }
 
@@ -288,14 +289,14 @@ impl Property for C12 {
     }
     fn cases(&self, tier: Tier) -> u64 {
         let p = phases(tier);
-        seq_space(15, p.exhaustive_len) + p.sampled + p.random + p.nested + p.programs
+        seq_space(15, p.exhaustive_len) + p.sampled + p.random + p.nested + p.programs + p.flat
     }
     fn rule(&self) -> String {
         format!(
             "Cases: token lists built with TokenList::push (as the repo's own parser tests do). (1) Exhaustive: every sequence of <= L \
              tokens over a 15-kind alphabet (4 bracket pairs, property, identifier, num, |, &, ::, comma) inside the frame `let a = ... ;` \
              (L=4 quick plus 200000 sampled sequences of length 5-6; L=6 thorough). (2) Random sequences of up to 200 tokens over all 54 kinds. \
-             (3) Seven nesting templates at 40 depths from 1 to 1000. (4) Generated programs tokenised by the real lexer. Entry points: \
+             (3) Seven nesting templates at 40 depths from 1 to 1000. (4) Generated programs tokenised by the real lexer. (5) Long flat inputs of 50-800 small statements. Entry points: \
              parse_program for all, parse_statement and parse_expression in (1) and (2). Oracle: the structural dump (node kinds, token kind \
              and index of every leaf, children in order, stop cursor, error text and span) of Context::new(tokens) equals that of \
              Context::new(tokens).without_cache() wherever bracket nesting <= {UNCACHED_MAX_NESTING} or the input has fewer than {UNCACHED_ALWAYS_BELOW_TOKENS} tokens (uncached parsing is exponential in nesting); \
@@ -353,6 +354,22 @@ impl Property for C12 {
                         let which = (i as usize) % 7;
                         let depth = DEPTHS[(i as usize) / 7];
                         ("nested", nested_kinds(which, depth), &all_entries[..1])
+                    } else if i - p.nested >= p.programs {
+                        // Long flat inputs: hundreds of small statements, shallow nesting (cheap without the cache).
+                        let stmts: [&[TK]; 6] = [
+                            &[TK::KeywordLet, TK::IdentifierValue, TK::OperatorEqual, TK::PrimitiveNum, TK::ControlSemicolon],
+                            &[TK::KeywordLet, TK::IdentifierValue, TK::OperatorEqual, TK::ControlBraceLeft, TK::Property, TK::PrimitiveStr, TK::ControlBraceRight, TK::ControlSemicolon],
+                            &[TK::KeywordRes, TK::PathElementRoot, TK::KeywordOn, TK::MethodGet, TK::OperatorArrow, TK::ControlChevronLeft, TK::ControlChevronRight, TK::ControlSemicolon],
+                            &[TK::KeywordLet, TK::IdentifierReference, TK::OperatorEqual, TK::ControlBracketLeft, TK::IdentifierValue, TK::ControlBracketRight, TK::ControlSemicolon],
+                            &[TK::KeywordUse, TK::LiteralString, TK::KeywordAs, TK::IdentifierValue, TK::ControlSemicolon],
+                            &[TK::AnnotationLine, TK::KeywordLet, TK::IdentifierValue, TK::IdentifierValue, TK::OperatorEqual, TK::IdentifierValue, TK::IdentifierValue, TK::OperatorVerticalBar, TK::PrimitiveNum, TK::AnnotationInline, TK::ControlSemicolon],
+                        ];
+                        let n = tape.range(50, 800);
+                        let mut v = Vec::new();
+                        for _ in 0..n {
+                            v.extend_from_slice(stmts[tape.choose(stmts.len())]);
+                        }
+                        ("flat", v, &all_entries[..1])
                     } else {
                         let (prog, _) = Gen::new(tape, GenCfg::full()).program();
                         let text = &render_plain(&prog)[0].text;
